@@ -180,6 +180,17 @@ def theorem_names(props_file):
     return re.findall(r'^\s*(?:Theorem|Corollary)\s+([A-Za-z0-9_\']+)', text, re.M)
 
 
+def coqc_scratch(vf, d, targets, timeout=600):
+    """Compile a scratch file against the theories.  Done under the Coq lock and after re-making the targets it loads, so that a
+    concurrent check (another property, or a run against another repo copy that regenerates Gen/Extracted.v) cannot leave the
+    loaded .vo files mutually inconsistent while coqc reads them."""
+    with Lock('coq'):
+        gen_extracted()
+        if targets:
+            run(['make', '-j%d' % NPROC, '-k'] + list(targets), cwd=COQ, timeout=1500)
+        return run(['coqc', '-noglob', '-Q', os.path.join(COQ, 'theories'), 'FluentV', vf], cwd=d, timeout=timeout)
+
+
 def print_assumptions(pid, props_module, names):
     """Compile a scratch file that prints the assumptions of every property theorem.
     Returns dict name -> list of axioms ([] = closed under the global context)."""
@@ -191,7 +202,7 @@ def print_assumptions(pid, props_module, names):
         for n in names:
             f.write('Goal True. idtac "@@BEGIN %s". exact I. Qed.\nPrint Assumptions %s.\n' % (n, n))
         f.write('Goal True. idtac "@@END". exact I. Qed.\n')
-    rc, out, _ = run(['coqc', '-noglob', '-Q', os.path.join(COQ, 'theories'), 'FluentV', vf], cwd=d, timeout=600)
+    rc, out, _ = coqc_scratch(vf, d, ['theories/' + m_.replace('.', '/') + '.vo' for m_ in props_module.split()])
     res = {}
     if rc != 0:
         return None, out
@@ -701,7 +712,7 @@ def extraction_cross_check(pid, prop, pairs):
         f.write('\n].\n')
         f.write('Definition verdicts := map (fun p => sexp_eqb (run_case (fst p)) (snd p)) pairs.\n')
         f.write('Goal True. let v := eval vm_compute in verdicts in idtac "@@XCHECK" v. exact Logic.I. Qed.\n')
-    rc, out, _ = run(['coqc', '-noglob', '-Q', os.path.join(COQ, 'theories'), 'FluentV', vf], cwd=d, timeout=600)
+    rc, out, _ = coqc_scratch(vf, d, [ext[0]])
     m = re.search(r'@@XCHECK\s*\[(.*?)\]', out, re.S)
     if rc != 0 or not m:
         return 0, ['coqc failed: ' + out[-300:]]
